@@ -293,6 +293,11 @@ func c15Expect(defect string, tag int, set quickfix.ValidatorSettings) c15Exp {
 			return acc
 		}
 		return rej(0, 15, 16, 1, 2, 13)
+	case "group-member-required-removed":
+		if !set.RejectInvalidMessage {
+			return acc
+		}
+		return rej(tag, 1)
 	case "header-field-in-body", "body-field-after-trailer-field":
 		if !set.CheckFieldsOutOfOrder {
 			return acc
@@ -408,7 +413,7 @@ func runC15(c *core.Ctx) {
 		c.EngineError(err.Error())
 		return
 	}
-	c.SetRule("for every message type of every shipped dictionary: conforming messages (required-only; plus each optional top-level field singly; plus each group with 1 and 2 entries) and every single-defect mutant (each required field removed; undefined tags <5000 and >=5000 at the body boundaries; each typed field with an ill-typed value; each enumerated field with a non-member; each group count +-1 and 0 with entries following; group members swapped; every optional header field (enumerated ones with each value) conforming, ill-typed and out of enumeration; header field in body; body field after a trailer field; each field duplicated; each value emptied; unknown MsgType), judged under all 32 combinations of validator settings; under the default and the all-off settings also parsed into a Message object that parsed a long defective message before; session part: a real logged-on FIX.4.2/4.3/4.4 session whose validator the factory builds from the configuration (each validator setting alone at Y and at N) receives a conforming NewOrderSingle and one mutant of each kind, and the transmitted Reject's reason and RefTagID are judged")
+	c.SetRule("for every message type of every shipped dictionary: conforming messages (required-only; plus each optional top-level field singly; plus each group with 1 and 2 entries) and every single-defect mutant (each required field removed; undefined tags <5000 and >=5000 at the body boundaries; each typed field with an ill-typed value; each enumerated field with a non-member; each group count +-1 and 0 with entries following; group members swapped; each required member of a group removed from the first and from the last of two entries; every optional header field (enumerated ones with each value) conforming, ill-typed and out of enumeration; header field in body; body field after a trailer field; each field duplicated; each value emptied; unknown MsgType), judged under all 32 combinations of validator settings; under the default and the all-off settings also parsed into a Message object that parsed a long defective message before; session part: a real logged-on FIX.4.2/4.3/4.4 session whose validator the factory builds from the configuration (each validator setting alone at Y and at N) receives a conforming NewOrderSingle and one mutant of each kind, and the transmitted Reject's reason and RefTagID are judged")
 	c.Assume("expected reason/tag per defect kind follow the FIX session reject reasons; where the pipeline legitimately reports an equally specific rule first the oracle is set-valued (ill-typed value of an enumerated field: 5 or 6; swapped group members: 15,16,1,2 or 13)",
 		"message types whose MsgType is not in the transport dictionary's enumeration are not conforming and are skipped", "XmlDataLen/XmlData and other LENGTH/DATA pairs are not used as optional singles")
 	settingsList := []int{}
@@ -532,6 +537,25 @@ func runC15(c *core.Ctx) {
 									sw := append([]fixscan.Field{}, full...)
 									sw[j+1], sw[j+2] = sw[j+2], sw[j+1]
 									emit("group-members-swapped", x.Tag, sw, "")
+								}
+							}
+							// a required member missing from the first entry (the next field is the delimiter of the
+							// second entry) and from the last entry (the next field lies outside the group)
+							ent := g.entry(x.Group, false, 1)
+							direct := map[int]bool{}
+							for _, gm := range x.Group[1:] {
+								if gm.Required && !gm.IsGroup {
+									direct[gm.Tag] = true
+								}
+							}
+							if j+2*len(ent) < len(full)+1 {
+								for e := 0; e < 2; e++ {
+									for k := 1; k < len(ent); k++ {
+										at := j + 1 + e*len(ent) + k
+										if at < len(full) && direct[ent[k].Tag] && full[at].Tag == ent[k].Tag {
+											emit("group-member-required-removed", ent[k].Tag, without(full, at), fmt.Sprintf("group %d entry %d of 2", x.Tag, e+1))
+										}
+									}
 								}
 							}
 							break
